@@ -11,6 +11,7 @@ ROOT = os.path.dirname(os.path.dirname(os.path.abspath(__file__)))
 
 # why a recorded finding was not repaired by a "fix:" commit (the brief: repair only when small and safe)
 WHY = {
+    "fold-hidden-fork-depth": "found in the last hours; fstack_skip is shared by several commands and the repair could not be validated against all its callers in the time left",
     "auto-neg32": "type width of untyped arguments is a documented-format decision (32-bit heuristics in the printer)",
     "autoargs-complex": "needs a new argument class (two SSE registers) in the DWARF -> spec translation",
     "same-dirname-concurrent-clients": "naming policy of `uftrace recv` (one directory per name)",
